@@ -220,8 +220,10 @@ def check_images_doc(ctx, pmi, Dc):
         im = pmi.Images()
         im.loads(json.dumps(doc))
     except Exception as e:
-        ctx.note_add("images_doc_rejected")
-        ctx.note("images_doc_rejected_example", "%s: %s" % (type(e).__name__, e))
+        # an otherwise valid older document with src entries must be re-filed, not refused
+        ctx.monitor("images-conversion", fired=True)
+        ctx.violation("images-conversion", "loading an older images document re-files every source image under each binary architecture of the same variant",
+                      Dc, observed="load rejected the document: %s: %s" % (type(e).__name__, str(e)[:200]), expected="converted manifest")
         return nontrivial
     probs = bad_keys(im.images)
     try:
@@ -326,8 +328,9 @@ def check_rpms_doc(ctx, pmr, Dc):
         rp = pmr.Rpms()
         rp.loads(json.dumps(doc))
     except Exception as e:
-        ctx.note_add("rpms_doc_rejected")
-        ctx.note("rpms_doc_rejected_example", "%s: %s" % (type(e).__name__, e))
+        ctx.monitor("rpms-conversion", fired=True)
+        ctx.violation("rpms-conversion", "loading an rpms 0.3 document re-files every source RPM under each binary architecture that lists packages built from it",
+                      Dc, observed="load rejected the document: %s: %s" % (type(e).__name__, str(e)[:200]), expected="converted manifest")
         return nontrivial
     probs = bad_keys(rp.rpms)
     try:
